@@ -83,6 +83,8 @@ def check_abort(case, agg):
     cps.add_file(cs, "clean", rows_clean, srcname="clean.csv")
     texts = [cps.member_text(p, ident=f"m{j}") for j, p in enumerate(progs)]
     cs.paths_manager.add_named_paths(name="grp", paths=texts)
+    follow_group = "grp" if case.get("follow", 0) % 2 == 0 else "other"
+    cs.paths_manager.add_named_paths(name="other", paths=[cps.member_text(p, ident=f"m{j}") for j, p in enumerate(members)])
     inputs_before = cps.tree("inputs")
     w = {"members": texts, "rows": rows, "method": method, "abort_member": i, "abort_line": line, "kind": kind}
     with hooks.recording(agg) as rec:
@@ -166,26 +168,27 @@ def check_abort(case, agg):
     # ---- a subsequent run on the same instance archives normally
     archive_before = cps.tree("archive")
     with hooks.recording(agg) as rec2:
-        lines2, exc2 = cps.run_method(cs, "collect_paths", "grp", "clean")
+        lines2, exc2 = cps.run_method(cs, "collect_paths", follow_group, "clean")
     if exc2 is not None:
         w["next_run_exception"] = f"{type(exc2).__name__}: {str(exc2)[:200]}"
         return "next-run-fails", w
-    rd2 = cps.run_dirs("grp")
-    new = [d for d in rd2 if d not in rd]
-    if len(new) != 1:
-        w["run_dirs_after_next_run"] = rd2
+    w["follow_up_group"] = follow_group
+    rd2 = cps.run_dirs(follow_group)
+    new = [d for d in rd2 if d not in rd] if follow_group == "grp" else rd2
+    if len(new) != 1 or (follow_group != "grp" and cps.run_dirs("grp") != rd):
+        w["run_dirs_after_next_run"] = {"grp": cps.run_dirs("grp"), "other": cps.run_dirs("other")}
         return "next-run-has-no-own-directory", w
     after = cps.tree("archive")
     for path, hsh in archive_before.items():
         if path != "manifest.json" and after.get(path) != hsh:
             w["file"] = path
             return "next-run-touches-aborted-run", w
-    results2 = cs.results_manager.get_named_results("grp")
+    results2 = cs.results_manager.get_named_results(follow_group)
     by_id2 = {}
     for ev in rec2.lines:
         by_id2.setdefault(ev["id"], []).append(ev)
     coll2 = [[ev["line"] for ev in by_id2.get(id(r_.csvpath), []) if ev["ret"]] for r_ in results2]
-    pr = archive.check_run("grp", new[0], results2, coll2, "collect_paths", [f"m{j}" for j in range(n)])
+    pr = archive.check_run(follow_group, new[0], results2, coll2, "collect_paths", [f"m{j}" for j in range(n)])
     if pr:
         w.update(pr[1])
         return "next-run:" + pr[0], w
@@ -209,7 +212,7 @@ def cases_for_group(seed, shard, gi, methods):
             for kind in ("argtype", "pyexc"):
                 method = methods[k % len(methods)]
                 k += 1
-                yield {"members": members, "rows": rows, "member": i, "line": line, "kind": kind, "method": method, "pos": r.randint(0, 3)}
+                yield {"members": members, "rows": rows, "member": i, "line": line, "kind": kind, "method": method, "pos": r.randint(0, 3), "follow": k}
 
 
 def run_one(case, agg):
